@@ -231,3 +231,14 @@ func init() {
 			"\tif op.NullsFirst {", "\tif op.NullsFirst && len(op.Args) > 1 {", "C07-N3", "nulls-first sort"},
 	)
 }
+
+func init() {
+	addMutants(
+		Mutant{"C10", "c10-minmax-identity-carried", "runtime/sam/expr/agg/math.go", "mathReducer.consumeVal",
+			"if m.math != nil && m.hasval {", "if m.math != nil {", "C10-M2", "seeds the promoted accumulator"},
+		Mutant{"C05", "c05-named-types-by-name-only", "type.go", "CompareTypes",
+			"return CompareTypes(a.Type, b.Type)", "return 0", "C05-T1", "two named types"},
+		Mutant{"C02", "c02-map-colon-by-tab-only", "zson/formatter.go", "Formatter.formatMap",
+			"if f.tab > 0 || mapEntryNeedsSpace(keyType, valType) {", "if f.tab > 0 {", "C02-M2", "separator after the colon"},
+	)
+}
